@@ -56,6 +56,25 @@ func (c *Ctx) statParams() (docs, freq int, site ssa.CallInstruction) {
 		}
 		for _, b := range f.Blocks {
 			for _, ins := range b.Instrs {
+				// parked in a field of a record struct first: continue from where that field is read
+				if st, ok := ins.(*ssa.Store); ok && st.Val == v {
+					if fa, ok := st.Addr.(*ssa.FieldAddr); ok {
+						if _, fv := fieldAddrInfo(fa); fv != nil {
+							for _, b2 := range f.Blocks {
+								for _, i2 := range b2.Instrs {
+									if ld, ok := i2.(*ssa.UnOp); ok && ld.Op == token.MUL {
+										if fa2, ok := ld.X.(*ssa.FieldAddr); ok {
+											if _, fv2 := fieldAddrInfo(fa2); fv2 == fv {
+												out = append(out, flow(f, ld, depth+1)...)
+											}
+										}
+									}
+								}
+							}
+						}
+					}
+					continue
+				}
 				ci, ok := ins.(ssa.CallInstruction)
 				if !ok {
 					continue
